@@ -159,6 +159,8 @@ def rx_nontrivial(inp, impl):
         ks.append("pending-poll")
     if "eof" in toks:
         ks.append("eof")
+    if "overflow" in toks:
+        ks.append("overflow")
     if " Q" in inp and " P" in inp:
         ks.append("mixed-drop-and-retain")
     if "r" in inp and "x" in inp and "+" in inp:
@@ -187,13 +189,94 @@ def search_rx(run, cfg, G):
             return
 
 
+# ------------------------------------------------------------------------------------ tx (C02, C17)
+
+def tx_nontrivial(inp, impl):
+    ks = []
+    res, _, wr = impl.partition(";")
+    rt = res.split()
+    if "ok" in rt:
+        ks.append("accepted")
+    if "json" in rt:
+        ks.append("refused-serialisation")
+    if "overflow" in rt:
+        ks.append("refused-overflow")
+    if "io" in rt:
+        ks.append("write-failed")
+    if len(wr.split()) >= 2:
+        ks.append("several-writes")
+    if " E" in inp and inp.count(" E") >= 2:
+        ks.append("pipelined-enqueues")
+    return ks
+
+
+def hook_limit():
+    import re
+    t = open(os.path.join(VERIF, "lean", "Zlink", "Gen", "Consts.lean")).read()
+    m = re.search(r"def maxBufferSizeHook : Nat := (\d+)", t)
+    return m.group(1) if m else "65536"
+
+
+def run_tx(run, cfg, G):
+    diff_run(run, G, ["tx"], "tx", tx_nontrivial, "tx")
+    def search():
+        for off in (1, 2):
+            diff_run(run, G, ["tx"], "tx", tx_nontrivial, f"tx-search{off}", tier="thorough", seed_offset=off, record=False)
+            if any(v[2] == "" for v in run.violations):
+                return
+    finish_corr(run, G, [search])
+    run.cov["rule"] = ("histories of 1..12 operations over enqueue_call / send_call / send_reply / send_error / flush on the real Connection with a capturing "
+                       "transport: (a) for every free-space value 0..600 a first message leaving exactly that much room, then a message of a chosen span; "
+                       "(b) random histories with messages of 0..4 (thorough 0..40) growth steps, refused serialisations (custom Serialize error, bool map key) at any "
+                       "position and occasional transport write failures; reference bytes per message from serde_json::to_vec; non-trivial = at least one message accepted, "
+                       "refused, or several writes; distinct = distinct case lines")
+
+
+def run_bounds(run, cfg, G):
+    lim = hook_limit()
+    diff_run(run, G, ["rx-bounds"], "rxb", rx_nontrivial, "rx-bounds", extra_args=["--limit", lim])
+    diff_run(run, G, ["tx-bounds"], "tx", tx_nontrivial, "tx-bounds", extra_args=["--limit", lim])
+    def search():
+        diff_run(run, G, ["rx-bounds"], "rxb", rx_nontrivial, "rx-bounds-search", tier="thorough", seed_offset=1, record=False, extra_args=["--limit", lim])
+        diff_run(run, G, ["tx-bounds"], "tx", tx_nontrivial, "tx-bounds-search", tier="thorough", seed_offset=1, record=False, extra_args=["--limit", lim])
+    finish_corr(run, G, [search])
+    run.cov["limit_used"] = int(lim)
+    run.cov["rule"] = ("with the hook-lowered limit (extracted from the source, passed to the generator): inbound lone frames of wire size 256k-2..256k+2 for sampled (thorough: all) k up to "
+                       "limit/256+2, limit-3..limit+3, random sizes, and unterminated input of limit, limit+1, limit+300 bytes, each under 2 (thorough 5) chunkings/poll patterns; "
+                       "outbound single messages of wire size limit-3..limit+258, sizes near multiples of 256, and fill level p + message len around p+len+1 = limit; "
+                       "non-trivial = delivered / overflow / refused observed; distinct = distinct case lines")
+
+
 RX_ASSUME = [
     "which bytes are a JSON document of the requested shape is serde_json/serde's business: the model takes `decode this frame` as an opaque per-frame function (theorems hold for every such function); the harness instantiates it with the verdict of a fresh connection receiving that frame alone and cross-checks call receivers against serde_json::from_slice",
     "the ReadHalf contract: a read future that is dropped while pending has consumed nothing",
     "frames are non-empty and contain no NUL; the whole stream is shorter than MAX_BUFFER_SIZE (oversize traffic is C17)",
 ]
 
+TX_ASSUME = [
+    "the serializer's result for one message (its bytes, or the bytes before a refusal) is an input of the send-path model; that those bytes are serde_json's compact encoding is C03",
+    "WriteHalf::write either accepts the whole slice or fails (partial writes are the transport's business, see C19)",
+]
+
 PROPS = {
+    "C02": {
+        "property_modules": ["Zlink.Properties.C02"],
+        "lean_modules": ["Zlink.Properties.C02"],
+        "theorems": ["C02.C02_history", "C02.C02_stream", "C02.C02_free_space_irrelevant", "C02.C02_refused_no_effect",
+                     "C02.C02_empty_flush", "C02.C02_oracle", "C02.consts_ok"],
+        "run": run_tx, "trusted_base": TB_COMMON, "assumptions": TX_ASSUME,
+    },
+    "C17": {
+        "property_modules": ["Zlink.Properties.C17"],
+        "lean_modules": ["Zlink.Properties.C17"],
+        "theorems": ["C17.C17_rx_cap_bounded", "C17.C17_rx_accept", "C17.C17_rx_overflow", "C17.C17_rx_threshold",
+                     "C17.C17_tx_threshold", "C17.C17_tx_cap_bounded", "C17.consts_ok"],
+        "run": run_bounds, "trusted_base": TB_COMMON,
+        "assumptions": RX_ASSUME[:2] + TX_ASSUME + [
+            "boundary sweeps run with the hook-lowered limit (--cfg zlink_verif: 64 KiB); the theorems are parametric in the limit and `consts_ok` checks that both the production and the hook value extracted from the source are positive multiples of the growth step",
+            "the inbound overflow theorem covers input that has fully arrived (any read sizes); overflow under interleaved arrivals is covered by the correspondence run and the executable oracle only",
+        ],
+    },
     "C01": {
         "property_modules": ["Zlink.Properties.C01"],
         "lean_modules": ["Zlink.Properties.C01"],
